@@ -215,13 +215,18 @@ uint8_t* ext_place(char place, long off, const uint8_t* bytes, size_t n)
     memcpy(a, bytes, n);
     return a;
 }
+static size_t src_align = 1;      /* typed source arrays (uint16_t* ...) keep the alignment their element type requires */
 uint8_t* ext_source(const uint8_t* bytes, size_t n)   /* read-only source object, end flush against a guard page */
 {
-    uint8_t* a = regP.data + DATA_PAGES * PAGE - n - src_shift;
+    uint8_t* a = regP.data + DATA_PAGES * PAGE - n - (src_shift - src_shift % (long)src_align);
     mprotect(regP.data, DATA_PAGES * PAGE, PROT_READ | PROT_WRITE);
     memcpy(a, bytes, n);
     mprotect(regP.data, DATA_PAGES * PAGE, PROT_READ);
     return a;
+}
+uint8_t* ext_source_typed(const uint8_t* bytes, size_t n, size_t elem)
+{
+    src_align = elem ? elem : 1; uint8_t* a = ext_source(bytes, n); src_align = 1; return a;
 }
 uint8_t* ext_dest(int k, size_t cap, uint8_t fill)   /* writable destination object k of exactly cap bytes, end flush */
 {
